@@ -55,7 +55,10 @@ def _cases(draw, max_n=None, max_p=8, containers=("ndarray",)):
 def _T(case):
     if case.get("int_periods"):
         return np.array([float(t) for t in case["int_periods"]])
-    return np.array([float(r) * case["dt"] for r in case["ratios"]])
+    T = np.array([float(r) * case["dt"] for r in case["ratios"]])
+    if case.get("container") == "float32":
+        T = T.astype(np.float32).astype(float)  # the single-precision roundings are the periods that were asked for
+    return T
 
 
 def _periods(case):
@@ -68,7 +71,9 @@ def _periods(case):
         if case["lead0"]:
             T = [0.0] + T
     k = case.get("container", "ndarray")
-    return np.array(T) if k == "ndarray" else (list(T) if k == "list" else tuple(T))
+    if k == "float32" and not case.get("int_periods"):
+        return np.array(T, dtype=np.float32)  # e.g. periods read from a single-precision file
+    return np.array(T) if k in ("ndarray", "float32") else (list(T) if k == "list" else tuple(T))
 
 
 def _cls(ctx, case, a):
@@ -137,7 +142,7 @@ def sd_is_peak(case, ctx):
     ctx.close(tsv[s:], np.max(np.abs(v), axis=1).astype(float), tol * sv, "true S_v vs peak of the exact velocity")
 
 
-@clause(CLAUSES, "pseudo-relations", _cases(containers=("ndarray", "list", "tuple")), quick=800, thorough=1800,
+@clause(CLAUSES, "pseudo-relations", _cases(containers=("ndarray", "list", "tuple", "ndarray", "list", "tuple", "float32")), quick=800, thorough=1800,
         rule="same generator, periods as ndarray/list/tuple; non-trivial = non-zero record with periods on both sides of 6*dt",
         oracle="reference model: S_v == (2pi/T) S_d, S_a == (2pi/T)^2 S_d (1e-12 rel) for T >= 6dt; S_a == max|record| exactly for T < 6dt "
                "and T=0; all outputs finite, >= 0, shape (len(periods),)",
@@ -149,7 +154,7 @@ def pseudo_relations(case, ctx):
     P = _periods(case)
     T = _T(case)
     s = 1 if case["lead0"] else 0
-    r = np.array(case["ratios"], dtype=float)
+    r = T / dt if case.get("container") == "float32" else np.array(case["ratios"], dtype=float)
     ctx.nt(bool(np.any(a) and np.any(r < 5.99) and np.any(r > 6.01)))
     pga = float(np.max(np.abs(a)))
     for fname, f in (("pseudo_response_spectra", sdof.pseudo_response_spectra), ("true_response_spectra", sdof.true_response_spectra)):
